@@ -160,6 +160,7 @@ def run(check, tier, seed):
     # 1. tables
     try:
         changed = tables.generate()
+        changed = tables.generate_for(check) or changed
         if changed:
             log.append("Generated/Tables.lean changed")
     except Exception as e:
